@@ -63,7 +63,30 @@ type ServerKeyFields struct {
 // UnmarshalJSON implements json.Unmarshaler
 func (keys *ServerKeys) UnmarshalJSON(data []byte) error {
 	keys.Raw = data
-	return json.Unmarshal(data, &keys.ServerKeyFields)
+	// Pick the members out by their exact names. Decoding straight into the struct matches field
+	// names case-insensitively (under Unicode folding), so that a member "Server_Name" or
+	// "\u017ferver_name" of a document would replace the "server_name" every other implementation,
+	// a notary included, reads - and the document would be taken for another server's.
+	var object map[string]json.RawMessage
+	if err := json.Unmarshal(data, &object); err != nil {
+		return err
+	}
+	for _, member := range []struct {
+		name   string
+		target interface{}
+	}{
+		{"server_name", &keys.ServerName},
+		{"verify_keys", &keys.VerifyKeys},
+		{"valid_until_ts", &keys.ValidUntilTS},
+		{"old_verify_keys", &keys.OldVerifyKeys},
+	} {
+		if raw, ok := object[member.name]; ok {
+			if err := json.Unmarshal(raw, member.target); err != nil {
+				return err
+			}
+		}
+	}
+	return nil
 }
 
 // MarshalJSON implements json.Marshaler
